@@ -5,6 +5,8 @@ generated from the source text (`Generated/SyncLink.lean`).
 -/
 import TraitsVerif.Model.SyncLive
 import TraitsVerif.Generated.SyncLink
+import TraitsVerif.Lemmas.SyncLive
+import TraitsVerif.Lemmas.SyncShapes
 namespace TraitsVerif.Model.SyncLive
 open TraitsVerif TraitsVerif.Py TraitsVerif.Model TraitsVerif.Model.Sync TraitsVerif.Model.PyLSync
   TraitsVerif.Model.PyLLink
@@ -98,6 +100,77 @@ theorem linkS_is_source [DecidableEq α] (E : Sync.Env α) (k : KWorld α) (p q 
         cases linkOneS E k1 q p with
         | mk k2 ex2 => cases ex2 <;> simp [finL, sigL]
 
+/-- The table part of the remove path. -/
+theorem rem_table (E : Sync.Env α) (c : LCtx α) (hI : c.isList = E.isList) (k : KWorld α) :
+    interpL c (.ite .tableExists (.ite .keyInTable (.seq (.act .delKey)
+      (.seq (.ite .tableEmpty (.seq (.act .delTable) (.act .unhookModified)) .skip)
+        (.ite (.and .isList (.not .anyListPartner)) (.act .unhookItems) .skip))) .skip) .skip) k =
+      (unlinkOneS E k c.p c.q, .norm) := by
+  unfold unlinkOneS
+  rw [interpL_ite]
+  by_cases hemp : (k.w.partners c.p).isEmpty = true
+  · simp only [evalL, hemp, Bool.not_true, Bool.false_eq_true, if_false, if_true, interpL_skip]
+  · simp only [evalL, hemp, Bool.not_false, if_true, if_false]
+    rw [interpL_ite]
+    by_cases he : (⟨c.p, c.q⟩ : Edge) ∈ k.w.edges
+    · simp only [evalL, he, decide_true, if_true]
+      rw [interpL_seq, interpL_act]
+      simp only [doL, he, if_true]
+      generalize setEdges k (k.w.edges.filter (fun e => e ≠ (⟨c.p, c.q⟩ : Edge))) = k1
+      rw [interpL_seq, interpL_ite]
+      have hlast : ∀ k2 : KWorld α, interpL c (.ite (.and .isList (.not .anyListPartner)) (.act .unhookItems) .skip) k2 =
+          (if E.isList c.p && E.isList c.q && !(listPartnerLeft E k2 c.p)
+            then setHooked k2 (k2.w.hooked.filter (· ≠ c.p)) else k2, .norm) := by
+        intro k2
+        rw [interpL_ite]
+        simp only [evalL, hI, listPartnerLeft]
+        split <;> rename_i hc <;> simp only [interpL_act, interpL_skip, doL, hc, if_true, if_false, Bool.false_eq_true]
+      by_cases hemp2 : (k1.w.partners c.p).isEmpty = true
+      · simp only [evalL, hemp2, if_true]
+        rw [interpL_seq, interpL_act]
+        simp only [doL, interpL_act]
+        exact hlast _
+      · simp only [evalL, hemp2, if_false, interpL_skip]
+        exact hlast _
+    · simp only [evalL, he, decide_false, Bool.false_eq_true, if_false, interpL_skip]
+
+/-- The remove path, one level. -/
+theorem rem_path (E : Sync.Env α) (c : LCtx α) (hI : c.isList = E.isList) (hr : c.remove = true) (k : KWorld α) :
+    interpL c Generated.SyncLink.syncTrait k =
+      if c.both then
+        (match c.rev true (unlinkOneS E k c.p c.q) with
+         | (k2, none) => (k2, .ret)
+         | (k2, some e) => (k2, .exc e))
+      else (unlinkOneS E k c.p c.q, .ret) := by
+  unfold Generated.SyncLink.syncTrait
+  rw [interpL_seq, interpL_ite]
+  simp only [evalL, hr, if_true]
+  rw [interpL_seq, rem_table E c hI k]
+  simp only []
+  rw [interpL_seq, interpL_ite]
+  by_cases hb : c.both = true
+  · simp only [evalL, hb, if_true, interpL_act, doL]
+    cases c.rev true (unlinkOneS E k c.p c.q) with
+    | mk k2 ex => cases ex <;> rfl
+  · simp only [evalL, hb, if_false, interpL_skip]
+    rfl
+
+theorem inner_rem (E : Sync.Env α) (call : Rec α) (p q : Pair) (k : KWorld α) :
+    finL (interpL (innerCtx E.isList call p q true) Generated.SyncLink.syncTrait k) = (unlinkOneS E k q p, none) := by
+  rw [rem_path E (innerCtx E.isList call p q true) rfl rfl k]
+  simp [innerCtx, finL]
+
+/-- `sync_trait(…, remove=True)` (hand-written) is the interpretation of its source text. -/
+theorem unlinkS_is_source (E : Sync.Env α) (call : Rec α) (k : KWorld α) (p q : Pair) (both : Bool) :
+    (unlinkS E k p q both, (none : Option Exc)) =
+      runLink E.isList call Generated.SyncLink.syncTrait k p q both true := by
+  unfold runLink unlinkS
+  rw [rem_path E _ rfl rfl k]
+  cases both
+  · simp [finL]
+  · simp only [if_true, inner_rem]
+    simp [finL]
+
 /-- `_is_list_trait` (hand-written) is the interpretation of its source text; it
 never raises (`handler.default_value_type` is read behind `handler is not None`). -/
 theorem isListTrait_is_source (d : TraitDesc) :
@@ -108,5 +181,202 @@ theorem isListTrait_is_source (d : TraitDesc) :
     cases h with
     | none => rfl
     | some v => cases v <;> rfl
+
+/-! ### The source-shaped functions are `Model.Sync`'s on quiet states -/
+
+theorem assignK_w [DecidableEq α] (E : Sync.Env α) (k : KWorld α) (p : Pair) (v : AVal α) (hq : Quiet k) :
+    (assignK E k p v).world = { k with w := (k.w.assign E p v).world } ∧
+    (assignK E k p v).exc = (k.w.assign E p v).exc ∧ (assignK E k p v).ret = (k.w.assign E p v).ret := by
+  unfold assignK World.assign
+  rw [cascadeK_assign E _ k p v hq]
+  cases cascade (applyAssign E) k.w.budget k.w p v with
+  | error e => exact ⟨rfl, rfl, rfl⟩
+  | ok x => obtain ⟨w', r⟩ := x; exact ⟨rfl, rfl, rfl⟩
+
+theorem mutateK_w [DecidableEq α] (E : Sync.Env α) (k : KWorld α) (p : Pair) (op : Op α) (hq : Quiet k) :
+    (mutateK E k p op).world = { k with w := (k.w.mutate E p op).world } ∧
+    (mutateK E k p op).exc = (k.w.mutate E p op).exc ∧ (mutateK E k p op).ret = (k.w.mutate E p op).ret := by
+  unfold mutateK World.mutate
+  rw [cascadeK_mutate E _ k p op hq]
+  cases cascade (applyMutate E) k.w.budget k.w p op with
+  | error e => exact ⟨rfl, rfl, rfl⟩
+  | ok x => obtain ⟨w', r⟩ := x; exact ⟨rfl, rfl, rfl⟩
+
+/-- The tables after the registration half of `linkOneS` are `World.register`'s. -/
+theorem register_w (E : Sync.Env α) (k : KWorld α) (p q : Pair) :
+    (setEdges (if E.isList p && E.isList q then hookI (if (k.w.partners p).isEmpty then hookM k p else k) p
+        else (if (k.w.partners p).isEmpty then hookM k p else k))
+      ((if E.isList p && E.isList q then hookI (if (k.w.partners p).isEmpty then hookM k p else k) p
+        else (if (k.w.partners p).isEmpty then hookM k p else k)).w.edges ++ [(⟨p, q⟩ : Edge)])).w =
+      k.w.register E p q := by
+  unfold World.register hookI hookM setEdges setHooked
+  by_cases hl : (E.isList p && E.isList q) = true <;> by_cases hm : (k.w.partners p).isEmpty = true <;>
+    by_cases hh : p ∈ k.w.hooked <;> by_cases hM : p ∈ k.hookedM <;> simp [hl, hm, hh, hM]
+
+/-- One direction of the registration: `linkOneS` is `World.linkOne`. -/
+theorem linkOneS_w [DecidableEq α] (E : Sync.Env α) (k : KWorld α) (p q : Pair) (hq : Quiet k) (hL : k.w.locked = [])
+    (hd : q.1 ∉ k.dead) :
+    (linkOneS E k p q).1.w = (k.w.linkOne E p q).world ∧ (linkOneS E k p q).2 = (k.w.linkOne E p q).exc ∧
+    Quiet (linkOneS E k p q).1 ∧ (linkOneS E k p q).1.dead = k.dead := by
+  unfold linkOneS World.linkOne
+  by_cases he : (⟨p, q⟩ : Edge) ∈ k.w.edges
+  · rw [if_pos he, if_pos he]; exact ⟨rfl, rfl, hq, rfl⟩
+  · rw [if_neg he, if_neg he]
+    simp only []
+    have hreg := register_w E k p q
+    generalize hk3 : setEdges _ _ = k3 at hreg
+    have hdoom : k3.doom = k.doom ∧ k3.dead = k.dead := by
+      subst hk3; unfold setEdges hookI hookM setHooked
+      constructor <;> (split <;> (try split) <;> (try split) <;> (try split) <;> rfl)
+    have hq3 : Quiet k3 := by
+      refine ⟨hdoom.1.trans hq.1, ?_, ?_⟩
+      · intro e hm
+        rw [hreg] at hm
+        rw [hdoom.2]
+        simp only [World.register, List.mem_append, List.mem_singleton] at hm
+        rcases hm with hm | rfl
+        · exact hq.2.1 e hm
+        · exact hd
+      · rw [hreg]
+        simp only [World.register]
+        exact List.nodup_append.mpr ⟨hq.2.2, by simp, fun a ha b hb => by
+          simp only [List.mem_singleton] at hb; subst hb; exact fun h => he (h ▸ ha)⟩
+    have hval : k3.w.val p = k.w.val p := by rw [hreg]; rfl
+    unfold recB World.assign
+    rw [cascadeK_assign E _ k3 q _ hq3, hreg]
+    simp only [show (World.register E k.w p q).val p = k.w.val p from rfl]
+    cases hc : cascade (applyAssign E) (k.w.register E p q).budget (k.w.register E p q) q (k.w.val p) with
+    | error e => exact ⟨hreg, rfl, hq3, hdoom.2⟩
+    | ok x =>
+      obtain ⟨w', r⟩ := x
+      have hst := cascade_frame (local_assign E) _ _ q _ w' r (by simp [World.register, hL]) hc
+      refine ⟨rfl, rfl, ?_, hdoom.2⟩
+      exact hq3.of_edges w' (by rw [hst.1, hreg])
+
+theorem link_some [DecidableEq α] (E : Sync.Env α) (w : World α) (p q : Pair) (b : Bool) (e : Exc)
+    (h : (w.linkOne E p q).exc = some e) : w.link E p q b = w.linkOne E p q := by
+  unfold World.link; simp [h]
+
+theorem link_none [DecidableEq α] (E : Sync.Env α) (w : World α) (p q : Pair) (b : Bool)
+    (h : (w.linkOne E p q).exc = none) :
+    w.link E p q b = if b then (w.linkOne E p q).world.linkOne E q p else w.linkOne E p q := by
+  unfold World.link; simp [h]
+
+theorem linkS_w [DecidableEq α] (E : Sync.Env α) (k : KWorld α) (p q : Pair) (b : Bool) (hq : Quiet k)
+    (hL : k.w.locked = []) (hdp : p.1 ∉ k.dead) (hdq : q.1 ∉ k.dead) :
+    (linkS E k p q b).1.w = (k.w.link E p q b).world ∧ (linkS E k p q b).2 = (k.w.link E p q b).exc ∧
+    Quiet (linkS E k p q b).1 := by
+  obtain ⟨h1, h2, h3, h4⟩ := linkOneS_w E k p q hq hL hdq
+  unfold linkS
+  cases hl : linkOneS E k p q with
+  | mk k1 ex =>
+    rw [hl] at h1 h2 h3 h4
+    simp only at h1 h2 h3 h4
+    cases ex with
+    | some e =>
+      rw [link_some E k.w p q b e h2.symm]
+      exact ⟨h1, h2, h3⟩
+    | none =>
+      rw [link_none E k.w p q b h2.symm]
+      cases b
+      · exact ⟨h1, h2, h3⟩
+      · simp only [if_true]
+        have hL1 : k1.w.locked = [] := by
+          have := (linkOneS_rest (n := k.swallowed) E k p q ⟨hL, rfl⟩).1
+          rw [hl] at this; exact this
+        obtain ⟨g1, g2, g3, _⟩ := linkOneS_w E k1 q p h3 hL1 (by rw [h4]; exact hdp)
+        rw [← h1]
+        exact ⟨g1, g2, g3⟩
+
+theorem partners_empty_filter {w : World α} {p : Pair} (h : (w.partners p).isEmpty = true) :
+    w.edges.filter (fun e => e.src ≠ p) = w.edges := by
+  apply List.filter_eq_self.mpr
+  intro e he
+  simp only [ne_eq, decide_eq_true_eq]
+  intro hs
+  have : e.dst ∈ w.partners p := by
+    unfold World.partners
+    exact List.mem_map.mpr ⟨e, List.mem_filter.mpr ⟨he, by simp [hs]⟩, rfl⟩
+  simp [List.isEmpty_iff.mp h] at this
+
+/-- One direction of the removal: `unlinkOneS` is `World.unlinkOne` when no table
+lists a collected object. -/
+theorem unlinkOneS_w (E : Sync.Env α) (k : KWorld α) (p q : Pair) (ht : Tidy k) :
+    (unlinkOneS E k p q).w = k.w.unlinkOne E p q ∧ (unlinkOneS E k p q).doom = k.doom ∧
+    (unlinkOneS E k p q).dead = k.dead := by
+  unfold unlinkOneS World.unlinkOne
+  by_cases he : (⟨p, q⟩ : Edge) ∈ k.w.edges
+  · have hne : (k.w.partners p).isEmpty = false := by
+      have : q ∈ k.w.partners p := mem_partners_iff.mpr he
+      cases h : (k.w.partners p) with
+      | nil => simp [h] at this
+      | cons a as => rfl
+    simp only [hne, he, if_true, if_false, Bool.false_eq_true]
+    generalize hk1 : setEdges k (k.w.edges.filter (fun e => e ≠ (⟨p, q⟩ : Edge))) = k1
+    have hk1e : k1.w.edges = k.w.edges.filter (fun e => e ≠ (⟨p, q⟩ : Edge)) := by subst hk1; rfl
+    have hk2 : ∀ k2 : KWorld α, k2.w.edges = k1.w.edges → k2.dead = k.dead →
+        listPartnerLeft E k2 p = (k.w.edges.filter (fun e => e ≠ (⟨p, q⟩ : Edge))).any
+          (fun e => decide (e.src = p) && E.isList e.dst) := by
+      intro k2 h2 hd2
+      unfold listPartnerLeft
+      rw [h2, hk1e, hd2]
+      rw [Bool.eq_iff_iff]
+      simp only [List.any_eq_true]
+      constructor
+      · rintro ⟨e, hm, h⟩
+        exact ⟨e, hm, by simp_all⟩
+      · rintro ⟨e, hm, h⟩
+        have : e.dst.1 ∉ k.dead := ht e (List.mem_filter.mp hm).1
+        exact ⟨e, hm, by simp_all⟩
+    by_cases hemp : (k1.w.partners p).isEmpty = true
+    · simp only [hemp, if_true]
+      have hfe : k1.w.edges.filter (fun e => e.src ≠ p) = k1.w.edges := partners_empty_filter hemp
+      rw [hk2 _ (by show (k1.w.edges.filter _) = _; exact hfe) (by subst hk1; rfl)]
+      subst hk1
+      split <;> simp_all [setEdges, setHooked]
+    · simp only [hemp, if_false, Bool.false_eq_true]
+      rw [hk2 k1 rfl (by subst hk1; rfl)]
+      subst hk1
+      split <;> simp_all [setEdges, setHooked]
+  · simp only [he, if_false]
+    split <;> exact ⟨rfl, rfl, rfl⟩
+
+theorem unlinkOne_sublist (E : Sync.Env α) (w : World α) (p q : Pair) :
+    (w.unlinkOne E p q).edges.Sublist w.edges := by
+  unfold World.unlinkOne
+  split
+  · exact List.filter_sublist
+  · exact List.Sublist.refl _
+
+theorem unlinkOneS_quiet (E : Sync.Env α) (k : KWorld α) (p q : Pair) (hq : Quiet k) :
+    (unlinkOneS E k p q).w = k.w.unlinkOne E p q ∧ Quiet (unlinkOneS E k p q) := by
+  obtain ⟨h1, h2, h3⟩ := unlinkOneS_w E k p q hq.2.1
+  refine ⟨h1, h2.trans hq.1, ?_, ?_⟩
+  · intro e he
+    rw [h1] at he
+    rw [h3]
+    exact hq.2.1 e ((unlinkOne_sublist E k.w p q).subset he)
+  · rw [h1]
+    exact List.Nodup.sublist (unlinkOne_sublist E k.w p q) hq.2.2
+
+theorem unlinkS_quiet (E : Sync.Env α) (k : KWorld α) (p q : Pair) (b : Bool) (hq : Quiet k) :
+    (unlinkS E k p q b).w = k.w.unlink E p q b ∧ Quiet (unlinkS E k p q b) ∧ (unlinkS E k p q b).dead = k.dead := by
+  unfold unlinkS World.unlink
+  obtain ⟨h1, h2⟩ := unlinkOneS_quiet E k p q hq
+  have hd1 := (unlinkOneS_w E k p q hq.2.1).2.2
+  cases b
+  · exact ⟨h1, h2, hd1⟩
+  · simp only [if_true]
+    obtain ⟨g1, g2⟩ := unlinkOneS_quiet E (unlinkOneS E k p q) q p h2
+    have hd2 := (unlinkOneS_w E (unlinkOneS E k p q) q p h2.2.1).2.2
+    rw [h1] at g1
+    exact ⟨g1, g2, hd2.trans hd1⟩
+
+theorem killK_quiet (k : KWorld α) (o : Nat) (hq : Quiet k) (hL : k.w.locked = []) :
+    (killK k o).w = k.w.kill o ∧ Quiet (killK k o) := by
+  refine ⟨rfl, hq.1, ?_, ?_⟩
+  · exact (killK_shrink k o (by simp [hL])).1.tidy hq.2.1
+  · show (k.w.kill o).edges.Nodup
+    exact List.Nodup.sublist List.filter_sublist hq.2.2
 
 end TraitsVerif.Model.SyncLive
